@@ -149,6 +149,18 @@ func newApp(db dbm.DB, home string) *simapp.SimApp {
 	return simapp.NewSimApp(log.NewNopLogger(), db, nil, true, appOptions, baseapp.SetChainID(ChainID))
 }
 
+// consensusParamsFor: the SDK's test defaults, except that every other genesis (by its number of validators) runs with an
+// unlimited block gas (`max_gas = -1`, CometBFT's own genesis default — BaseApp then installs an infinite block gas meter)
+func consensusParamsFor(g Genesis) *cmtproto.ConsensusParams {
+	cp := *simtestutil.DefaultConsensusParams
+	blk := *cp.Block
+	if len(g.Vals)%2 == 0 {
+		blk.MaxGas = -1
+	}
+	cp.Block = &blk
+	return &cp
+}
+
 func decE18(v int64) sdkmath.LegacyDec { return sdkmath.LegacyNewDecWithPrec(v, 18) }
 
 // NewNode builds the genesis, runs InitChain and returns the node plus the InitChain validator updates.
@@ -296,7 +308,7 @@ func NewNode(w *World, g Genesis) (*Node, []abci.ValidatorUpdate, error) {
 		ChainId:         ChainID,
 		Time:            n.Genesis,
 		Validators:      []abci.ValidatorUpdate{},
-		ConsensusParams: simtestutil.DefaultConsensusParams,
+		ConsensusParams: consensusParamsFor(g),
 		AppStateBytes:   stateBytes,
 		InitialHeight:   1,
 	})
